@@ -63,6 +63,26 @@ CHECKS = {
          "Every rendering (Normal, Unified, Context; from New and from New.AddContext(n).Unify()) of tens of thousands of diffs over an adversarial line alphabet is parsed by reference parsers written from the format descriptions, must describe the original changes at the original ranges, and must turn Left into Right under strict appliers; Read/ReadUnified/ReadGitPatch must return the reference parse and re-format to identical bytes with names and timestamps preserved; a sample is applied with GNU patch and GNU diff output is fed to the readers. Unified read failures with an omitted count that match the F5 signature are KNOWN-FINDING; everything else is a VIOLATION.",
          "Trusts my reading of the GNU diffutils manual, GNU patch 2.7 / GNU diff 3.x as installed, and the F5 signature.",
          "DESIGN.md §5 C14, §4"),
+ "C15": ("three independent oracles on the quoted text: the package's own Split, an independent XCU-2.2 scanner requiring every special byte to be quoted, and real shells (dash, bash +B) evaluating it in a bait directory; kept results re-verified later (pool aliasing); concurrent phase under the race detector; exhaustive short strings over a metacharacter alphabet and all single bytes",
+         "Every single byte value alone and embedded, every string of length <= 3 over a 24-symbol alphabet of all shell metacharacters, and random lists/byte strings are quoted/joined; Split must invert, an independent scanner must find no unquoted special byte and recover the input, and dash and bash must obtain exactly the input as argument words in a directory where an unprotected glob/tilde/comment would change the result; Quote/Join calls are interleaved and results re-checked later; 8 goroutines repeat this under -race. Held = no disagreement on the enumerated space and samples.",
+         "Trusts dash/bash as installed (LC_ALL=C, bash with +B) and the independent scanner.",
+         "DESIGN.md §5 C15"),
+ "C16": ("independent directly-coded reference tokenizer (with consumed offsets and situation coverage) compared with Split and with Scanner under every reader fragmentation and every Rest point; real shells on the inputs the statement covers; exhaustive strings over the tokenizer's byte classes; concurrent pooled use under the race detector",
+         "Every byte string of length <= 7 over one representative byte per tokenizer class (960 k inputs), every byte value in several contexts and random longer inputs are tokenised by shell.Split and by Scanner over one-byte and random fragmentations, with Complete/Err/Each/Scanner.Split and Rest after every token, and compared with an independent tokenizer that must see all 42 (state, class) situations; complete metacharacter-free inputs without unquoted newlines are also split by dash and bash. Held = no disagreement on that space.",
+         "Trusts the reference tokenizer (written from XCU 2.2 plus the package's documented treatment of backslash inside double quotes) and dash/bash as installed.",
+         "DESIGN.md §5 C16"),
+ "C18": ("bitmask reference over a 5-element universe; exhaustive enumeration of receiver/argument combinations including nil and empty operands and argument lists with repetitions; aliasing probes by mutating results and arguments; two-set histories",
+         "All 34x34 operand pairs for the binary predicates and AddAll/RemoveAll, all receivers x all argument lists of length <= 3 for HasAll/HasAny/Add/Remove/New, all 0..3-operand Intersect combinations, and every constructor/accessor on every operand are compared with bit arithmetic; returned sets must be non-nil where promised and must not alias arguments; histories over two sets check both after every step. Held = no disagreement on the enumerated space.",
+         "Trusts 5-bit mask arithmetic as the reference.",
+         "DESIGN.md §5 C18"),
+ "C19": ("invariant monitor after every Add of seeded runs (exact regime, Len <= size, Count = Len*2^j with j monotone, Reset) + seeded mean test with a 7-standard-error tolerance for unbiasedness",
+         "24 000 seeded runs (sizes 2..64 and larger, streams below/at/far above capacity with repeats and Resets) are checked after every Add for the deterministic clauses; 16 statistical configurations (sizes 4,5,6 with 200 000 counters each; sizes 8,16,64 with 4 000 each) compare the mean of Count with the true distinct count. Verdict deterministic for a given VERIF_SEED. Held = clauses held at every checked Add and every mean within tolerance.",
+         "CLT-based tolerance (7 SE + 0.2 % D); skewness is measured and reported; bias smaller than the tolerance is not detected; sizes 2-3 get deterministic clauses only.",
+         "DESIGN.md §5 C19"),
+ "C20": ("byte-loop oracles with guard bytes and end-of-allocation layouts at all 8 alignments, run plain, under -race (checkptr) and (thorough) under AddressSanitizer; definitional oracles for Trunc; order axioms of CompareNatural on all pairs and triples of short strings",
+         "mbits: every length 0..16 x alignment x zero/non-zero pattern and structured/random patterns to length 40 in two memory layouts, with results compared to byte loops, guard bytes checked, and sanitizers watching for accesses that leave the allocation; mstr.Trunc on every string of <= 5 runes of mixed width x every n; CompareNatural: range, antisymmetry, transitivity on all triples of 259 strings, zero iff canonically equal, numeric order of digit runs. Held = no disagreement, no sanitizer report.",
+         "An over-read that stays inside one allocation and does not change the answer is invisible; digit runs kept <= 18 digits.",
+         "DESIGN.md §5 C20"),
  "C07": ("reference-model monitor (slice) after every operation; exhaustive short histories + scripted wrap/regrow scenarios + PRNG histories; internal-state reach counters via hook",
          "Runs the real queue.Queue against a slice reference and compares the full observable state (Len, IsEmpty, Front, Slice, Each, every Peek offset) after every single operation, over every history of bounded length for small preallocated sizes, scripted rotate-then-grow scenarios for every capacity 1..24 and head position, and tens of thousands of PRNG histories. Held = no divergence on the executions listed in the evidence file; nothing is proved beyond them.",
          "Trusts the slice reference model and the Go runtime. The VerifState hook feeds reach counters only.",
